@@ -1,7 +1,6 @@
 package checks
 
 import (
-	"sync/atomic"
 	"encoding/json"
 	"fmt"
 	"math/big"
@@ -12,6 +11,7 @@ import (
 	"sort"
 	"strings"
 	"sync"
+	"sync/atomic"
 	"time"
 
 	"github.com/goose-lang/goose/machine"
